@@ -208,10 +208,15 @@ static inline size_t varintAdaptiveMaxSize(size_t count) {
         return 1; /* Just header byte */
     }
 
-    /* Worst case: TAGGED encoding with 1 byte header + 9 bytes per value
+    /* Worst case over every encoding EncodeWith can be asked for (and that
+     * Encode can select): PFOR when every value is stored as an exception.
      * Header: 1 byte encoding type
-     * Data: worst case is tagged (9 bytes per uint64_t) */
-    return 1 + (count * 9);
+     * PFOR:   min (9) + width (1) + count (5, it is a uint32_t)
+     *         + one 8-byte slot per value
+     *         + exception count (5) + per exception index (5) + value (9)
+     * The others are smaller: TAGGED/DELTA 9 per value, FOR 19 + 8 per
+     * value, DICT 13 + 12 per value, BITMAP 5 + max(2 per value, 8192). */
+    return 1 + 20 + (count * 22);
 }
 
 /* Calculate compression ratio.
